@@ -179,10 +179,34 @@ func checkWalkShape(w walkShape) (rule, msg string) {
 			}
 		}
 	}
-	// every early-stop position
+	// every early-stop position; ONE sequence value is used for all of them and for a complete walk afterwards: what a
+	// walk yields is a function of the plan, never of what earlier (stopped) walks over the same value did
+	shared := walk.Plan(p)
+	defer func() {
+		if rule != "" {
+			return
+		}
+		n := 0
+		for it := range shared {
+			if n < len(ref) && it.Value != ref[n].v {
+				rule, msg = "walk-order", fmt.Sprintf("walk over a sequence value that was walked (and stopped) before: item %d differs", n)
+				return
+			}
+			n++
+			if n == 1 {
+				// a second walk over the same value started, and stopped, in the middle of this one
+				for range shared {
+					break
+				}
+			}
+		}
+		if n != len(ref) {
+			rule, msg = "walk-item-count", fmt.Sprintf("a sequence value that was walked and stopped before yields %d items, the plan has %d objects", n, len(ref))
+		}
+	}()
 	for stop := 0; stop < len(ref); stop++ {
 		n := 0
-		for it := range walk.Plan(p) {
+		for it := range shared {
 			if it.Value != ref[n].v {
 				return "walk-order", fmt.Sprintf("second walk: item %d differs", n)
 			}
